@@ -163,6 +163,10 @@ def check_roundtrip(chk, mode):
     shapes = tlc_plan(chk.wd, 'Plan_Cipher', dict(FAMILY='roundtrip', TIER=chk.tier))
     shapes.sort(key=lambda s: json.dumps(s, sort_keys=True))
     chk.log(f"TLC expanded {len(shapes)} round-trip shapes")
+    if mode == 'siv' and not chk.thorough:
+        # SIV costs two passes per call: the quick tier keeps every other shape of the dense (adlen, mlen) window
+        shapes = [s for s in shapes if s['mlen'] > 40 or s['adlen'] > 20 or s['oc'] or s['om'] or s['pl'] == 's'
+                  or (s['adlen'] + s['mlen'] + s['alias'] + s['v'] // 64) % 2 == 0]
     chk.cov['plan_shapes'] = len(shapes)
     groups, faults = roundtrip_plan(chk, exe, mode, shapes)
     execs, lines = run_groups(chk, exe, groups)
